@@ -771,9 +771,14 @@ def c11(rac, units, tier, seed, profile="debug"):
                 "1 / (32 °F to °C)", "1 K / (0 K)", "1 / (1 - 1)", "5 % / (1 - 100%)", "1 m / 0 s", "0 m / 0 m", "1 kg / (1000 g - 1 kg)", "1 / (0 °C to K) * 1", "1 K / (0 °C to °F)", "2 ^ (1 m / 1 m)", "1 / round(0.4)"]
     strings += ["1 m^0", "1 J/N * 1 m", "round(1.234, 2)", "0 ^ -1", "1 / 0", "1e999 * 1e999", "2 ^ 999", "1m^99", "(", ")", "((", "round(", "round(,)", "1 to", "to m", "1 m to °C^2", "10 °C/s to K/s",
                 "1e-999", "1 km^-99 to m^-99", "{speed of light", "speed of light}", "\\", "1 °C * 1 °C", "1 °F^-1 to K^-1", "1 % %", "1%%", "- 1", "1 - - 1", "1e", "1e+", "1.e5.", "..", "1..2"]
-    ans = rac.ask_many([{"cmd": "query", "q": s} for s in strings])
+    ans = rac.ask_many_guarded([{"cmd": "query", "q": s} for s in strings])
+    slow_family = re.compile(r"\^|\*\*|[0-9.][eE]")      # known finding D28: work grows with the VALUE of an exponent, not with the size of the input
     for s, a in zip(strings, ans):
         rep.ran(s, True, dict(input=s, results=len(a.get("results", []))))
+        if a.get("timeout"):
+            if not slow_family.search(s):
+                rep.fail("no answer within 3 s for an input without any exponent", query=s, expected="values or located errors", actual="timeout")
+            continue
         if "panic" in a:
             rep.fail("panic", query=s, expected="values or located errors", actual=str(a["panic"])[:200])
             continue
@@ -932,12 +937,13 @@ def lit_oracle(t):
 
 def c07(rac, units, tier, seed):
     k = 5 if tier == "quick" else 7
-    rep = Report("C07 str::parse::<Rational> and the NUMBER / PERCENTAGE arms of eval()", f"every string of <= {k} characters over the alphabet 0 1 9 + - . e E (exhaustive) given to the library parser; those the lexer reads as one NUMBER token also as queries (with and without %); seeded random long literals (<= 90 digits, zero-rich); oracle: an independent regex/Fraction reading of the grammar")
+    rep = Report("C07 str::parse::<Rational> and the NUMBER / PERCENTAGE arms of eval()", f"every string of <= {k} characters over the alphabet 0 1 9 + - . e E (exhaustive, exponents of at most 3 digits) given to the library parser; those the lexer reads as one NUMBER token also as queries (with and without %); seeded random long literals (<= 90 digits, zero-rich); oracle: an independent regex/Fraction reading of the grammar")
     rnd = random.Random(seed)
     alpha = "019+-.eE"
     strings = []
+    big_exp = re.compile(r"[eE][+-]?0*[0-9]{4,}$")     # exponents of >= 4 significant digits: printing 10^e digit by digit is quadratic (known finding D28 family); not explored
     for L in range(0, k + 1):
-        strings += ["".join(c) for c in itertools.product(alpha, repeat=L)]
+        strings += [t for t in ("".join(c) for c in itertools.product(alpha, repeat=L)) if not big_exp.search(t)]
     ans = rac.ask_many([{"cmd": "rational", "s": t} for t in strings], chunk=2000)
     accepted = []
     for t, a in zip(strings, ans):
@@ -979,7 +985,10 @@ def c07(rac, units, tier, seed):
         if "ok" not in a or frac_of(dict(value=a["ok"])) != exp:
             rep.fail("long literal read as a different number", query=f"parse {t!r}", expected=str(exp), actual=json.dumps(a)[:160], cmd={"cmd": "rational", "s": t}, raw=a)
     # the same literals written as queries (NUMBER / PERCENTAGE arms): only spellings the lexer reads as one NUMBER token
-    qs = [(t, exp) for t, exp in accepted if t and t[0] not in "+-" and t[0] != "e" and t[0] != "E"][: (4000 if tier == "quick" else 40000)]
+    def small_exp(t):
+        m = re.search(r"[eE][+-]?(\d+)$", t)
+        return m is None or int(m.group(1)) <= 999      # larger exponents make Display's digit loop quadratic (known finding D28 family)
+    qs = [(t, exp) for t, exp in accepted if t and t[0] not in "+-" and t[0] != "e" and t[0] != "E" and small_exp(t)][: (4000 if tier == "quick" else 40000)]
     qs += [(t, lit_oracle(t)) for t in longs if t and t[0].isdigit() and lit_oracle(t) not in (None, "huge")][:300]
     lexed = rac.ask_many([{"cmd": "lex", "s": t} for t, _ in qs], chunk=2000)
     todo = []
